@@ -170,3 +170,150 @@ theorem applyCallbacks_not_mem (ms calls : List String) (cid : String) (h : cid 
     · exact ih _ e
 
 end Galaxy.Gc
+
+namespace Galaxy.Gc
+open Galaxy.Generated.Gc
+
+/-! ### the sweep interleaved with environment moves -/
+
+theorem lookup_write (d : Dir) (e : Entry) (n : String) :
+    Dir.lookup (Dir.write d e) n = if e.name = n then some e else Dir.lookup d n := by
+  induction d with
+  | nil => simp [Dir.write, Dir.lookup]
+  | cons x t ih =>
+    by_cases h1 : x.name = e.name
+    · by_cases h2 : e.name = n
+      · simp [Dir.write, Dir.lookup, h1, h2]
+      · have h3 : x.name ≠ n := by rw [h1]; exact h2
+        simp [Dir.write, Dir.lookup, h1, h2]
+    · by_cases h2 : x.name = n
+      · have h3 : e.name ≠ n := by intro e'; exact h1 (h2.trans e'.symm)
+        have h1' : ¬ n = e.name := fun e' => h3 e'.symm
+        simp [Dir.write, Dir.lookup, h2, h3, h1']
+      · simp [Dir.write, Dir.lookup, h1, h2, ih]
+
+theorem lookup_remove (d : Dir) (m n : String) :
+    Dir.lookup (Dir.remove d m) n = if m = n then none else Dir.lookup d n := by
+  induction d with
+  | nil => simp [Dir.remove, Dir.lookup]
+  | cons x t ih =>
+    by_cases h1 : x.name = m
+    · by_cases h2 : m = n
+      · subst h2
+        simp [Dir.remove, h1, ih]
+      · simp [Dir.remove, Dir.lookup, h1, ih, h2]
+    · by_cases h2 : x.name = n
+      · have h3 : m ≠ n := by intro e'; exact h1 (h2.trans e'.symm)
+        have h1' : ¬ n = m := fun e' => h3 e'.symm
+        simp [Dir.remove, Dir.lookup, h2, h3, h1']
+      · simp [Dir.remove, Dir.lookup, h1, h2, ih]
+
+theorem dirAt_modifyAt (f : Dir → Dir) (fs : FS) (i j : Nat) :
+    dirAt (modifyAt f fs i) j = if i = j then (dirAt fs j).map f else dirAt fs j := by
+  induction fs generalizing i j with
+  | nil => cases i <;> simp [modifyAt, dirAt]
+  | cons x t ih =>
+    cases i with
+    | zero =>
+      cases j with
+      | zero => simp [modifyAt, dirAt]
+      | succ j => simp [modifyAt, dirAt]
+    | succ i =>
+      cases j with
+      | zero => simp [modifyAt, dirAt]
+      | succ j => simp [modifyAt, dirAt, ih]
+
+/-- a move that does not hit file `n` of directory `j` leaves its content alone -/
+theorem contentOf_apply (fs : FS) (m : EnvMove) (j : Nat) (n : String) (h : m.targets j n = false) :
+    contentOf (FS.apply fs m) j n = contentOf fs j n := by
+  cases m with
+  | write d n' c ip6 =>
+    simp only [EnvMove.targets, Bool.and_eq_false_iff, beq_eq_false_iff_ne] at h
+    unfold contentOf FS.apply
+    rw [dirAt_modifyAt]
+    by_cases hd : d = j
+    · subst hd
+      have hn : n' ≠ n := by rcases h with h | h; exact absurd rfl h; exact h
+      cases hda : dirAt fs d with
+      | none => simp
+      | some dir => simp [lookup_write, hn]
+    · simp [hd]
+  | delete d n' =>
+    simp only [EnvMove.targets, Bool.and_eq_false_iff, beq_eq_false_iff_ne] at h
+    unfold contentOf FS.apply
+    rw [dirAt_modifyAt]
+    by_cases hd : d = j
+    · subst hd
+      have hn : n' ≠ n := by rcases h with h | h; exact absurd rfl h; exact h
+      cases hda : dirAt fs d with
+      | none => simp
+      | some dir => simp [lookup_remove, hn]
+    · simp [hd]
+
+theorem contentOf_foldl_apply (ms : List EnvMove) (fs : FS) (j : Nat) (n : String)
+    (h : ∀ m ∈ ms, m.targets j n = false) : contentOf (ms.foldl FS.apply fs) j n = contentOf fs j n := by
+  induction ms generalizing fs with
+  | nil => rfl
+  | cons m t ih =>
+    simp only [List.foldl_cons]
+    rw [ih _ (fun m' hm' => h m' (by simp [hm'])), contentOf_apply fs m j n (h m (by simp))]
+
+/-- every removal of the log took a file whose content at the moment of removal was the content the collector had
+    read in the same iteration, and the container named there was judged dead -/
+def LogOK (rt : Runtime) (log : List Removal) : Prop :=
+  ∀ r ∈ log, r.contentAtRemoval = some r.readContent ∧ Dead (rt (cidOfContent r.readContent))
+
+theorem stepIPFile_logOK (hst : exitedStates = ["dead", "exited"]) (rt : Runtime) (sched : Nat → List EnvMove) (j : Nat)
+    (st : SweepState) (e : Entry) (h : LogOK rt st.log) : LogOK rt (stepIPFile rt sched j st e).log := by
+  unfold stepIPFile
+  cases e.kind with
+  | dir => exact h
+  | file _ =>
+    simp only
+    split
+    · exact h
+    · cases hc : contentOf st.fs j e.name with
+      | none => exact h
+      | some c =>
+        simp only
+        split
+        · exact h
+        · split
+          · rename_i hclean
+            intro r hr
+            simp only [List.mem_append, List.mem_singleton] at hr
+            rcases hr with hr | hr
+            · exact h r hr
+            · subst hr
+              refine ⟨?_, dead_of_shouldCleanup hst hclean⟩
+              simp only
+              rw [contentOf_foldl_apply _ _ _ _ (by
+                intro m hm
+                have := (List.mem_filter.mp hm).2
+                simpa using this), hc]
+          · exact h
+
+theorem foldl_stepIPFile_logOK (hst : exitedStates = ["dead", "exited"]) (rt : Runtime) (sched : Nat → List EnvMove) (j : Nat)
+    (l : List Entry) (st : SweepState) (h : LogOK rt st.log) : LogOK rt (l.foldl (stepIPFile rt sched j) st).log := by
+  induction l generalizing st with
+  | nil => exact h
+  | cons e t ih => exact ih _ (stepIPFile_logOK hst rt sched j st e h)
+
+theorem sweepIPDirI_logOK (hst : exitedStates = ["dead", "exited"]) (rt : Runtime) (sched : Nat → List EnvMove)
+    (st : SweepState) (j : Nat) (h : LogOK rt st.log) : LogOK rt (sweepIPDirI rt sched st j).log := by
+  unfold sweepIPDirI
+  cases dirAt st.fs j with
+  | none => exact h
+  | some l => exact foldl_stepIPFile_logOK hst rt sched j _ st h
+
+theorem sweepIPDirsI_logOK (hst : exitedStates = ["dead", "exited"]) (rt : Runtime) (sched : Nat → List EnvMove) (fs : FS) :
+    LogOK rt (sweepIPDirsI rt sched fs).log := by
+  unfold sweepIPDirsI
+  have : ∀ (js : List Nat) (st : SweepState), LogOK rt st.log → LogOK rt (js.foldl (sweepIPDirI rt sched) st).log := by
+    intro js
+    induction js with
+    | nil => intro st h; exact h
+    | cons j t ih => intro st h; exact ih _ (sweepIPDirI_logOK hst rt sched st j h)
+  exact this _ _ (by intro r hr; simp at hr)
+
+end Galaxy.Gc
